@@ -39,13 +39,15 @@ def nullCall : TExpr := .fcall "null" []
 def badChars (s : String) : Bool := s.toList.any fun c => c == '"' || c == '\\' || c == '`' || c.toNat < 0x20
 
 /-- renderExpression(expr, wrap = false, dot = true); `none` = the empty string that a NullLiteral renders to -/
-partial def compileExpr (env : CEnv) (e : JS.Expr) : CM (Option TExpr) := do
+def compileExprF : Nat → CEnv → JS.Expr → CM (Option TExpr)
+  | 0, _, _ => .error (.domain "expression nested deeper than the model's fuel")
+  | fuel + 1, env, e => do
   let req (e : JS.Expr) : CM TExpr := do
-    match ← compileExpr env e with
+    match ← compileExprF fuel env e with
     | some t => pure t
     | none => .error (.domain "null literal in operand position (renders to nothing)")
   let orNull (e : JS.Expr) : CM TExpr := do
-    match ← compileExpr env e with
+    match ← compileExprF fuel env e with
     | some t => pure t
     | none => pure nullCall
   match e with
@@ -95,6 +97,12 @@ partial def compileExpr (env : CEnv) (e : JS.Expr) : CM (Option TExpr) := do
       | .inl s => if badChars s then .error (.domain "template literal part needs quoting") else pure (if s.isEmpty then [] else [TExpr.lit (.str s)])
       | .inr x => do pure [← req x]
     pure (some (.fcall "__str" ps.flatten))
+
+/-- fuel: far above any nesting the harness or a real template produces; recursion is on the fuel, so the function is total
+and theorems about it go by induction on the fuel -/
+def exprFuel : Nat := 100000
+
+def compileExpr (env : CEnv) (e : JS.Expr) : CM (Option TExpr) := compileExprF exprFuel env e
 
 /-- which expression kinds get the escaper appended when wrapped (the `if wrap { if !p.rawmode {…} }` branches);
     this is the model's copy of the matrix, checked against the generated `Gen.escapeMatrix` in C04 -/
